@@ -138,6 +138,14 @@ def build_driver(tree, harness):
     p = subprocess.run(['cargo', 'build', '--offline'], cwd=os.path.join(harness, 'codec_driver'), env=env,
                        stdout=subprocess.PIPE, stderr=subprocess.PIPE, text=True)
     common.log(f'[c07] cargo build of regenerated crates -> {p.returncode} in {time.time() - t0:.0f}s')
+    if p.returncode == 0:
+        # the login crate emits a blocking, a tokio and an async-std reader per message: compile all three copies
+        t0 = time.time()
+        q = subprocess.run(['cargo', 'check', '--offline', '-p', 'wow_login_messages', '--features', 'sync,tokio,async-std'], cwd=tree, env=env,
+                           stdout=subprocess.PIPE, stderr=subprocess.PIPE, text=True)
+        common.log(f'[c07] cargo check of wow_login_messages with sync,tokio,async-std -> {q.returncode} in {time.time() - t0:.0f}s')
+        if q.returncode != 0:
+            return q.returncode, q.stderr, None
     return p.returncode, p.stderr, os.path.join(common.BUILD, 'c07-target', 'debug', 'codec_driver')
 
 
